@@ -1,4 +1,7 @@
 mod c05;
+mod c08;
+mod c09;
+mod seed;
 mod c10;
 mod c11;
 mod corpus;
@@ -14,6 +17,8 @@ use common::*;
 fn checks_for(property: &str, tier: Tier) -> Vec<Box<dyn Check>> {
     match property {
         | "C05" => c05::checks(),
+        | "C08" => c08::checks(tier),
+        | "C09" => c09::checks(tier),
         | "C10" => c10::checks(tier),
         | "C11" => c11::checks(tier),
         | _ => vec![],
